@@ -16,7 +16,8 @@ CHECKS = {
             "exhaustive enumeration of the structural encoding space (prefix x opcode x selector byte) "
             "plus per-position byte sweeps, round-trip oracle on the real decoder/encoder",
             "Every one of the 16 x 256 x 256 structural shapes and every value of every operand position of one "
-            "representative per rendered shape is decoded, re-encoded and re-decoded by the real code; the space is "
+            "representative per rendered shape (also followed by an instruction sharing its opcode) is decoded, re-encoded and "
+            "re-decoded by the real code; the space is "
             "finite and enumerated completely, so within it there is no unsampled input.",
             "Operand bytes past the selector are covered by fills and per-position sweeps, not all 2^40 tails; "
             "binja_test_mocks Encoder/Decoder trusted.",
@@ -25,7 +26,8 @@ CHECKS = {
             "exhaustive enumeration of the structural encoding space x every truncation length, follower classes, "
             "ordered decode-history pairs and boundary addresses on the real decoder, arch callbacks and emulator fetch",
             "All 16 x 256 x 256 structural shapes at every buffer length 0..7, every first-instruction representative "
-            "against one follower per (opcode, decode outcome) and full 65536-follower sweeps, all ordered pairs of "
+            "against one follower per (opcode, decode outcome), followers sharing prefix and opcode with flipped operand bytes "
+            "(length, text and IL of the first must not change) and full 65536-follower sweeps, all ordered pairs of "
             "history representatives (each shard in a fresh process so histories are reproducible), boundary addresses; "
             "metamorphic oracles need no reference, so every disagreement is a real one.",
             "Operand bytes beyond the second are covered by fills (C02 sweeps every position); callbacks run against "
@@ -69,7 +71,8 @@ CHECKS = {
             "instruction palette and loop skeletons in lockstep",
             "The structural encoding space (16 prefixes x 256 opcodes x every selector byte) is enumerated completely and "
             "crossed with 2 (quick) / 8 (thorough) architectural states chosen so every addressing mode lands on a "
-            "different address; all observables the statement lists are compared after every instruction.",
+            "different address; all observables the statement lists are compared after every instruction. Control-flow scripts: every sequence (length <= 4/5) "
+            "over {CALL, CALLF same/other page, JP, JPF, RET, RETF, RETI, IR, pushes} laid out along its own control flow across pages.",
             "Register/memory values come from palettes and a hash fill, not all values; both cores run on the same flat "
             "24-bit byte map (device windows are C11/C12); I is kept in 1..3; 17 divergence classes are recorded as known "
             "findings with signatures naming opcode and prefix class.",
@@ -80,7 +83,9 @@ CHECKS = {
             "N+M of loop skeletons, repeated/fresh-process determinism, self-modifying code",
             "No reference is needed: two executions that differ only in hidden state (TEMP0-13, call depth/stack/page "
             "bookkeeping, earlier instructions in the same emulator or harness process, process-wide counters) must give "
-            "identical architectural results; every element of the stated finite domains is executed on both cores.",
+            "identical architectural results; every element of the stated finite domains is executed on both cores. The last "
+            "instruction of every control-flow script (calls/returns/interrupts across pages, length <= 4/5) is run in the object "
+            "that executed the script and in a fresh object holding the same registers and memory.",
             "Architectural state is taken as BA,I,X,Y,U,S,PC,F plus memory; machine-level split runs are covered by the "
             "C12/C16/C18 drivers.",
             "DESIGN.md section 4, C07"),
@@ -98,7 +103,8 @@ CHECKS = {
             "each text is assembled by the real Assembler and the result re-disassembled (metamorphic round trip)",
             "All structural shapes (prefix set; all 16 prefixes and two operand fills in thorough) are rendered with hexadecimal "
             "literals and register names and assembled; success, equal text, equal length, structurally equal lifted IL and a "
-            "second-round fixed point are required. No reference model: the disassembler is its own oracle.",
+            "second-round fixed point are required; all 15 prefixes for opcodes with two internal-memory operands in every tier; operand "
+            "value sweeps per byte position. No reference model: the disassembler is its own oracle.",
             "Operand values come from two fills; redundant PRE bytes in front of instructions without internal-memory operands are "
             "out of scope; five root-cause classes are recorded as known findings (mostly pinned by the repository's assembler tests).",
             "DESIGN.md section 4, C09"),
@@ -119,7 +125,8 @@ CHECKS = {
             "product of memory configurations, each transition judged against the implementation's own pre-state with a "
             "reference canonicalisation/classification",
             "For every configuration (ROM image, card none/absent/sizes, RAM+ROM overlays, mirror, read-only range) all store "
-            "histories up to depth 2 over 8/16/24-bit stores at 29 boundary addresses (+32-bit aliases) are executed; after each, "
+            "histories up to depth 2 over 8/16/24-bit stores (values incl. writing the initial value back) at 29 boundary addresses "
+            "(+32-bit aliases), incl. a ROM image shorter than its window, are executed; after each, "
             "79 probe bytes are read back: the stored bytes must appear exactly at the canonical target cells when writable, and "
             "nothing else may change (RAM law, frame, internal/external separation, read-only, LE composition, alias equality).",
             "Addresses 0x100100-0xFFFFFF are outside the documented space and not judged; device windows are not installed on "
@@ -141,8 +148,10 @@ CHECKS = {
             "For every small period pair the canonical state space (distance to next targets, ISR bits) is explored to "
             "closure with every transition executed on both real implementations; default periods get all directed gap "
             "sequences up to length 3/4; per-cycle runs count fires exactly.",
-            "Machine-level cadence (WAIT/HALT cycles through CoreRuntime::step / PCE500Emulator.step) is covered by C12's "
-            "drivers, not here; periods above 7 are covered by directed sequences only.",
+            "Machine level: NOP/WAIT/HALT/OFF/ISR-clearing loops x handlers x masks x 9-12 period pairs stepped on both machines "
+            "with an alignment-agnostic per-step monitor (target in the future, no boundary skipped, phase kept, status bit set, "
+            "disabled timers silent); timers are not judged while a handler runs (neither machine ticks them then). "
+            "Periods above 7 are covered by directed sequences only.",
             "DESIGN.md section 4, C13"),
     "C18": ("model_checking",
             "exhaustive enumeration (in Rust, on the real AsyncDriver) of task sets x budget partitions against a reference "
@@ -161,7 +170,8 @@ CHECKS = {
             "Rust KeyboardMatrix against a reference debounce/repeat automaton, plus scripted long runs and the KEYI gating matrix",
             "All histories up to the stated depth over 3 colliding keys (shared row, shared column) and 5 strobe values, "
             "both column polarities and several debounce/repeat settings, are replayed on each real matrix; event streams, "
-            "key-input lower/upper bounds, FIFO capacity/drop-oldest and per-key event order are judged on every transition.",
+            "key-input lower/upper bounds, FIFO capacity/drop-oldest and per-key event order are judged on every transition. The "
+            "Python matrix is driven both directly and through the bus-facing PCE500KeyboardHandler (register reads/writes).",
             "Depth-bounded (5/7 Python, 4/6 Rust), with scripted runs covering the 24-tick repeat delay; the Rust matrix only "
             "exposes the press threshold; KEYI gating is checked at write_fifo_to_memory / _scan_keyboard_per_instruction.",
             "DESIGN.md section 4, C14"),
@@ -182,7 +192,9 @@ CHECKS = {
             "All reachable states of C12's configurations up to the stated depth are snapshot points (running, halted, powered off, "
             "inside handlers, pending/masked requests, key held, timer about to fire); for each, all continuations over "
             "{step, key press/release, ON} up to length 1-3 are executed on both machines and all program-visible observables "
-            "(registers, internal memory, RAM, power, FIFO, key input, timer distances, delivery counts, LCD) must agree.",
+            "(registers, internal memory, RAM, power, FIFO, key input, timer distances, delivery counts, LCD) must agree. Device level: "
+            "the keyboard matrix and the LCD controllers are saved into a fresh object and reloaded at every position of long scripts "
+            "and inside a BFS whose alphabet contains the snapshot, judged by the C14/C15 reference models (snapshot = identity).",
             "Rust bundles are written/read through the verification zip shim (real ZIP container); bookkeeping flags are not "
             "compared directly, only their observable consequences; wall-clock metadata is ignored.",
             "DESIGN.md section 4, C16"),
